@@ -86,6 +86,9 @@ pub fn password_strategy() -> BoxedStrategy<Vec<u8>> {
         // whitespace at the edges (what a trimming bug would eat)
         2 => "[ -~]{0,12}[ \t\n\r]".prop_map(|s| s.into_bytes()),
         1 => "[ \t][ -~]{1,10}".prop_map(|s| s.into_bytes()),
+        // exactly one HMAC block, and far beyond any sensible length (a silent cap would make long passwords collide)
+        1 => any::<u64>().prop_map(|s| bytes_from(s | 1, 64)),
+        1 => (4090usize..6000, any::<u64>()).prop_map(|(n, s)| bytes_from(s | 1, n)),
     ].boxed()
 }
 /// UTF-8 passwords without NUL (usable in environment variables).
@@ -124,7 +127,8 @@ pub fn wrong_passwords(w: &[u8], sel: u64) -> Vec<(Vec<u8>, &'static str)> {
     if w.first().map(|c| c.is_ascii_whitespace()).unwrap_or(false) { v.push((w[1..].to_vec(), "left-trimmed")); }
     v.push((b"an unrelated password".to_vec(), "unrelated"));
     let mut x = w.to_vec(); x.push(0); v.push((x, "equiv:nul"));
-    if w.len() > 64 { v.push((kspec::sha256(w).to_vec(), "equiv:digest")); }
+    // SHA-256(w) is the same HMAC key as w exactly when |w| > 64 (callers classify with hmac_equiv); for |w| <= 64 it is simply another password
+    v.push((kspec::sha256(w).to_vec(), if w.len() > 64 { "equiv:digest" } else { "digest" }));
     v
 }
 
